@@ -211,7 +211,7 @@ static void case_decaps(struct vh_rng *r)
     /* model */
     int last_cc = -1;                    /* continuity counter of the last packet seen */
     const struct gpkt *last_pl = NULL;   /* last payload packet delivered */
-    bool pending_gap = false;
+    bool pending_gap = false, pending_may_disc = false;
     int pending_masked = 0;     /* 1: counter jumped, 2: counter advanced by one on a payload-less packet */
     size_t expect_idx = 0;
     int exp_pcr = 0;
@@ -223,8 +223,12 @@ static void case_decaps(struct vh_rng *r)
         if (d->af_pcr) exp_pcr++;
         if (!d->has_payload) {
             /* the counter is not incremented on payload-less packets */
-            if (d->af_disc) { may_disc = true; }
-            else if (last_cc != -1 && d->cc != last_cc) {
+            if (d->af_disc) {
+                /* announced discontinuity: the counter may jump here; flagging
+                 * the next payload is allowed (the payload flow is broken) but
+                 * not demanded */
+                if (last_cc != -1 && d->cc != last_cc) pending_may_disc = true;
+            } else if (last_cc != -1 && d->cc != last_cc) {
                 /* 2.4.3.3: the counter is not incremented without payload, so
                  * any other value than the previous one reveals a loss */
                 pending_gap = true;
@@ -287,10 +291,10 @@ static void case_decaps(struct vh_rng *r)
             vh_violation("c15:decaps:gap-not-flagged", "packet %d (cc %u): counter gap but no discontinuity flag", i, d->cc);
         }
         if (gap || pending_gap) VH_COUNT("decaps.discontinuity_flagged_on_gap");
-        if (disc && !gap && !pending_gap && !may_disc && expect_idx > 0)
+        if (disc && !gap && !pending_gap && !may_disc && !pending_may_disc && expect_idx > 0)
             vh_violation("c15:decaps:spurious-discontinuity",
                          "packet %d (cc %u after %d): discontinuity flagged without counter gap", i, d->cc, last_cc);
-        pending_gap = false; pending_masked = 0;
+        pending_gap = false; pending_masked = 0; pending_may_disc = false;
         expect_idx++;
     }
     tsl_event_hook = NULL;
